@@ -2318,7 +2318,8 @@ class DropQueryBuilder:
         self._if_exists: bool | None = None
 
     def get_sql(self, ctx: SqlContext | None = None) -> str:
-        ctx = ctx or self.SQL_CONTEXT
+        # like CreateQueryBuilder: without a context the dialect class that created the builder decides
+        ctx = ctx or self.QUERY_CLS.SQL_CONTEXT
 
         if not self._drop_table:
             return ""
